@@ -14,7 +14,7 @@
 //                               call live objects == size(s) + size(t), at the end of the history none is left
 //            fms_<cmp>          etl::flat_multiset<int, etl::static_vector<int, 8>, Cmp>: "<config> <n> k1..kn"
 //   cmp    = less | greater | tless (etl::less<>, heterogeneous lookups) | half (a/2 < b/2: equivalence != equality)
-//            | tgreater (etl::greater<>: the second transparent comparator, descending; ss / fsv / sst / fst at capacity 3 and 8)
+//            | tgreater (etl::greater<>: the second transparent comparator, descending; ss / fsv at capacity 3 and 8)
 //   step   = i k | e k | ih h k | ir n k.. | as n k.. | asu n k.. | ek k | ep p | er a b | ef t m | cl | sw | x | rp n k..
 //            asi n k..  construction from a forward-iterator range (no distance precondition) / flat_set(first, last)
 //            asui n k.. flat_set(sorted_unique, first, last)        cp  copy assignment s = t (or copy-construct + move-assign)
@@ -831,13 +831,6 @@ bool c09::part_less(std::string const& fam, Toks& in, Out& impl, Out& ref)
     if (fam == "fms") { multiset_case<etl::less<int>, std::less<int>>(in, impl, ref); return true; }
     return dispatch<etl::less<int>, etl::less<TK>, std::less<int>, false>(fam, in, impl, ref);
 }
-#endif
-#if C09_HAS(1)
-bool c09::part_greater(std::string const& fam, Toks& in, Out& impl, Out& ref)
-{
-    if (fam == "fms") { multiset_case<etl::greater<int>, std::greater<int>>(in, impl, ref); return true; }
-    return dispatch<etl::greater<int>, etl::greater<TK>, std::greater<int>, false>(fam, in, impl, ref);
-}
 bool c09::part_dyn(std::string const& fam, Toks& in, Out& impl, Out& ref)
 {
     if (fam != "fsd") { return false; }
@@ -858,16 +851,15 @@ bool c09::part_dyn(std::string const& fam, Toks& in, Out& impl, Out& ref)
     }
 }
 #endif
-#if C09_HAS(2)
-bool c09::part_tless(std::string const& fam, Toks& in, Out& impl, Out& ref)
+#if C09_HAS(1)
+bool c09::part_greater(std::string const& fam, Toks& in, Out& impl, Out& ref)
 {
-    if (fam == "fms") { multiset_case<etl::less<>, std::less<>>(in, impl, ref); return true; }
-    return dispatch<etl::less<>, etl::less<>, std::less<>, true>(fam, in, impl, ref);
+    if (fam == "fms") { multiset_case<etl::greater<int>, std::greater<int>>(in, impl, ref); return true; }
+    return dispatch<etl::greater<int>, etl::greater<TK>, std::greater<int>, false>(fam, in, impl, ref);
 }
-#endif
-#if C09_HAS(3)
 // the second transparent comparator: a heterogeneous overload that hard-coded less<> instead of key_compare would be
-// invisible with less<> alone.  Fewer instantiations than the other comparators (compile time): capacity 3 and 8.
+// invisible with less<> alone.  Fewer instantiations than the other comparators (compile time): static_set and flat_set
+// over static_vector<int>, capacity 3 and 8.
 bool c09::part_tgreater(std::string const& fam, Toks& in, Out& impl, Out& ref)
 {
     using R = std::set<int, std::greater<>>;
@@ -885,19 +877,6 @@ bool c09::part_tgreater(std::string const& fam, Toks& in, Out& impl, Out& ref)
             run_ref<Kind::flat_set, R, std::greater<>, true>(in, ref, Cap);
             return true;
         }
-        if (fam == "sst") {
-            using S = etl::static_set<TK, Cap, etl::greater<>>;
-            run_impl<Kind::static_set, S, void, true>(in, impl, Cap);
-            run_ref<Kind::static_set, R, std::greater<>, true>(in, ref, Cap);
-            return true;
-        }
-        if (fam == "fst") {
-            using C = etl::static_vector<TK, Cap>;
-            using S = etl::flat_set<TK, C, etl::greater<>>;
-            run_impl<Kind::flat_set, S, C, true>(in, impl, Cap);
-            run_ref<Kind::flat_set, R, std::greater<>, true>(in, ref, Cap);
-            return true;
-        }
         return false;
     };
     switch (in.num()) {
@@ -906,6 +885,15 @@ bool c09::part_tgreater(std::string const& fam, Toks& in, Out& impl, Out& ref)
     default: return false;
     }
 }
+#endif
+#if C09_HAS(2)
+bool c09::part_tless(std::string const& fam, Toks& in, Out& impl, Out& ref)
+{
+    if (fam == "fms") { multiset_case<etl::less<>, std::less<>>(in, impl, ref); return true; }
+    return dispatch<etl::less<>, etl::less<>, std::less<>, true>(fam, in, impl, ref);
+}
+#endif
+#if C09_HAS(3)
 bool c09::part_half(std::string const& fam, Toks& in, Out& impl, Out& ref)
 {
     if (fam == "fms") { multiset_case<half_less, half_less>(in, impl, ref); return true; }
